@@ -296,8 +296,10 @@ rounds 3 (seeds 21–23 × three generators × 15 checks = 135 runs with the ato
 test, the exact enumerations and the new cells) raised two alarms: C02 pcg64/21
 on Binomial(3.4e15, 3.2e-14) — the BTPE precision defect then repaired by
 1aff986 — and C07 xoshiro/21, a false alarm of the InverseGaussian branch-flip
-detector (corrected, §0). A third run (seeds 31–33, after rounds 4–5) raised one
-alarm, C01 chacha/32 on the random near-switch cell Beta<f32>(1.0000023,
+detector (corrected, §0). A third run (seeds 31–33, after rounds 4–5) raised two
+alarms: C03 xoshiro/32, the known float-tree assertion reached through a random
+`TreeF` cell of C03 (listed for C10 only until then; entry C03-tree-float-assert
+added, keyed on the assertion text), and C01 chacha/32 on the random near-switch cell Beta<f32>(1.0000023,
 1.0000002) — a genuine defect (catastrophic cancellation in algorithm BB's
 set-up when both parameters are just above 1, f64 included), repaired by fix
 6c1c91b; asymmetric near-1 pairs were added to the Beta grid and re-find it on
